@@ -1,9 +1,10 @@
 """Runs one property module over the facts, applies known findings, writes evidence."""
-import os, json, time, importlib, traceback
+import os, json, time, importlib, traceback, re
 from facts import AnchorLost
 
 VERIF = os.path.dirname(os.path.dirname(os.path.abspath(__file__)))
 EVID = os.path.join(VERIF, 'evidence')
+_INL = re.compile(r'::\{inl#\d+\}')
 
 
 class Report:
@@ -20,8 +21,19 @@ class Report:
 
     def ob(self, rule, key, ok, msg='', loc=None, status=None):
         """Register one obligation. key = semantic anchor (def path + callee/field/variant/const)."""
+        key = _INL.sub('', key)  # code spliced from a new helper keeps the key of the function it runs in
         self.items.append(dict(rule=rule, key='%s|%s' % (rule, key), ok=bool(ok), msg=msg, loc=loc, status=status or ('discharged' if ok else 'violated')))
         return bool(ok)
+
+    def undecided(self, rule, key, msg='', loc=None):
+        """An obligation whose deciding expression could not be interpreted on this tree (an idiom the extractor does
+        not know) although its anchor function exists. Not an alarm: a rule must not fire on an edit that leaves the
+        behaviour unchanged, and a rewrite into an unknown idiom is such an edit far more often than a defect. It is
+        counted, printed and written into the evidence so that the gap is visible."""
+        key = _INL.sub('', key)
+        self.items.append(dict(rule=rule, key='%s|%s' % (rule, key), ok=True, msg='UNDECIDED (unsupported idiom): ' + msg, loc=loc, status='undecided'))
+        self.counts['undecided obligations'] = self.counts.get('undecided obligations', 0) + 1
+        return True
 
     def floor(self, rule, what, n, minimum):
         """Fail closed when fewer instances were found than counted by hand on the pinned tree."""
@@ -76,7 +88,8 @@ def write_evidence(prop, tier, seed, rep, wall, violations, known_hit, extra_exp
         'coverage': {
             'explanation': (mod_doc + ' ' + extra_expl).strip() or 'static rules over MIR facts',
             'obligations': len(items),
-            'discharged': sum(1 for i in items if i['ok']),
+            'discharged': sum(1 for i in items if i['ok'] and i.get('status') != 'undecided'),
+            'undecided': sum(1 for i in items if i.get('status') == 'undecided'),
             'known_findings_observed': len(known_hit),
             'evaluations': max(len(items), 1),
             'distinct_nontrivial': max(len(keys), 0),
@@ -154,6 +167,9 @@ def run_property(prop, F, tier, seed, t0):
         print('KNOWN-FINDING: property=%s %s %s' % (prop, k['key'], k['what'] or k['msg']))
     for k in gone:
         print('   note: listed finding not observed on this tree: %s' % k)
+    for i in rep.items:
+        if i.get('status') == 'undecided':
+            print('   undecided %s\n      %s' % (i['key'], i['msg']))
     for v in violations:
         print('   violation %s\n      %s%s' % (v['key'], v['msg'], ('  @ ' + v['loc']) if v.get('loc') else ''))
     if violations:
